@@ -650,7 +650,9 @@ func (fx *fixtureT) behaviour(env *drive.Env, offers [][]string, maxPoints int) 
 				rec["obs"] = fx.observe(bc2, d2)
 			}()
 			env.Emit(rec)
-			bc2.Stop()
+			if rec["panic"] == nil {
+				bc2.Stop() // after a panic inside InsertChain its wait group is never released: the chain is abandoned
+			}
 		}
 	}
 	return nil
